@@ -156,6 +156,47 @@ theorem C16_nan_spelling_loses_sign :
     ∃ c, isNaN c = true ∧ viaString c ≠ c ∧ flt c 0 = true ∧ flt (viaString c) 0 = false :=
   ⟨0xFFF8000000000000, by decide, by decide, by decide, by decide⟩
 
+/-! ## chains of operations with literal operands -/
+
+/-- a chain is evaluated strictly left to right: appending one more `op b` applies ONE more
+    instruction to the value of the chain so far (so `v + a + b` is `(v + a) + b` with two roundings,
+    never `v + (a + b)`), and an earlier division by zero wins -/
+theorem C16_chain_left_to_right (arith : Arith → Bits → Bits → Bits) (r : Res)
+    (steps : List (Arith × Bits)) (op : Arith) (b : Bits) :
+    evalChain arith r (steps ++ [(op, b)]) =
+      match evalChain arith r steps with
+      | .val x => computed arith op x b
+      | .divZero => .divZero := by
+  induction steps generalizing r with
+  | nil => cases r <;> simp [evalChain]
+  | cons s rest ih =>
+    obtain ⟨o, a⟩ := s
+    cases r with
+    | divZero =>
+      have : ∀ l, evalChain arith .divZero l = .divZero := by intro l; cases l <;> simp [evalChain]
+      simp [this]
+    | val x => simp only [List.cons_append, evalChain]; exact ih _
+
+example : evalChain (fun _ x _ => x) (.val 5) [(.add, 1), (.div, 0)] = .divZero := by decide
+
+/-- the two-operation case spelled out, and the right-grouped form `v op₁ (a op₂ b)` is one
+    instruction applied to the value of the literal sub-expression, folded or not -/
+theorem C16_chain_two (arith : Arith → Bits → Bits → Bits) (v a b : Bits) (op1 op2 : Arith) :
+    (evalChain arith (.val v) [(op1, a), (op2, b)] =
+      match computed arith op1 v a with
+      | .val x => computed arith op2 x b
+      | .divZero => .divZero) ∧
+    (evalRight arith v op1 a op2 b =
+      match computed arith op2 a b with
+      | .val t => computed arith op1 v t
+      | .divZero => .divZero) := by
+  constructor
+  · simp only [evalChain]
+    cases computed arith op1 v a <;> simp [evalChain]
+  · unfold evalRight
+    rw [C16_const_consistent]
+    cases computed arith op2 a b <;> rfl
+
 /-! ## `int_from_float` -/
 
 /-- NaN ↦ 0, ±inf saturate, every finite value is truncated toward zero (`Int.tdiv` of the exact
